@@ -7,7 +7,7 @@
     pre-tokeniser (regexp2) is the variable [split] with hypothesis [split_partition]. *)
 From Coq Require Import List NArith ZArith Bool.
 From V Require Import Common.Bytes Tok.Utf8 Tok.ByteMap Tok.ByteMapProofs Tok.Utf8Proofs Tok.Heap Tok.Vocab Tok.VocabProofs
-     Tok.Special Tok.SpecialProofs Tok.Bpe Tok.Spm Tok.MergeProofs Tok.BpeProofs Tok.SpmProofs Tok.LiteralProofs Tok.FuelProofs Tok.Witness.
+     Tok.Special Tok.SpecialProofs Tok.Bpe Tok.Spm Tok.MergeProofs Tok.BpeProofs Tok.SpmProofs Tok.LiteralProofs Tok.FuelProofs Tok.Pretok Tok.PretokProofs Tok.Witness.
 Import ListNotations.
 
 (** * the byte <-> rune map *)
@@ -131,6 +131,66 @@ Proof.
   split; [exact wv_bpe_consistent|]. split; [exact wv_bpe_complete|]. split; [exact wv_bpe_specials|].
   split; [exact wsplit_partition|]. destruct wv_bpe_example as [H1 H2]. split; assumption.
 Qed.
+
+(** * the pre-tokeniser (Tok/Pretok.v: backtracking matcher + the FindStringMatch/FindNextMatch loop) *)
+
+(** the llama 3 pattern of model/models/llama and mllama splits every valid text into a partition of non-empty
+    pieces - whatever the Unicode class tables are (no hypothesis on \p{L}, \p{N}, \s) *)
+Theorem C20_pretokenize_partition : forall cls rs, scalars rs ->
+  concat (pretok (llama3 cls) (of_runes rs)) = of_runes rs /\ Forall (fun p => p <> []) (pretok (llama3 cls) (of_runes rs)).
+Proof.
+  intros cls rs Hs. apply pretok_partition; [rewrite llama3_minlen; constructor|apply llama3_matches|exact Hs].
+Qed.
+Print Assumptions C20_pretokenize_partition.
+
+(** the tekken pattern of model/models/mistral3: same, for class tables in which every \p{L} rune is in one of
+    \p{Lu} \p{Lt} \p{Lm} \p{Lo} \p{Ll} \p{M} (tested on every class the real engine reports) *)
+Theorem C20_pretokenize_partition_tekken : forall cls rs,
+  (forall c, cls UL c = true -> upperish cls c || lowerish cls c = true) -> scalars rs ->
+  concat (pretok (tekken cls) (of_runes rs)) = of_runes rs /\ Forall (fun p => p <> []) (pretok (tekken cls) (of_runes rs)).
+Proof.
+  intros cls rs HL Hs. apply pretok_partition; [rewrite tekken_minlen; constructor|apply tekken_matches, HL|exact Hs].
+Qed.
+Print Assumptions C20_pretokenize_partition_tekken.
+
+(** the loop drops runes at which no alternative matches: with a pattern that is not gapless the pieces are not
+    a partition (this is what the code does with regexp2 matches; the repo's patterns are gapless by the theorems
+    above) *)
+Example C20_split_drops_gaps :
+  let cls := cls_of_table [(97, 1); (98, 1); (32, 4)]%N in
+  pretok (rplus (cls UL)) [97; 32; 98]%N = [[97]; [98]]%N.
+Proof. vm_compute. reflexivity. Qed.
+
+(** BPE round trip with the modelled pre-tokeniser: NO hypothesis about the pre-tokeniser is left; in exchange the
+    text must be valid UTF-8 and the special tokens valid UTF-8 (fragments of a valid text are then valid) *)
+Theorem C20_bpe_roundtrip_llama3 : forall v cls rs,
+  vocab_consistent v -> bpe_complete v -> specials_in_vocab v -> specials_valid v ->
+  scalars rs -> no_nul (of_runes rs) = true -> specials_plain_b v (of_runes rs) = true ->
+  bpe_decode v (bpe_encode v (pretok (llama3 cls)) (of_runes rs) false) = Some (of_runes rs).
+Proof.
+  intros v cls rs H1 H2 H3 H4 H5 H6 H7.
+  apply bpe_roundtrip_pattern; try assumption; [rewrite llama3_minlen; constructor|apply llama3_matches|apply specials_plain_b_spec, H7].
+Qed.
+Print Assumptions C20_bpe_roundtrip_llama3.
+
+Theorem C20_bpe_roundtrip_tekken : forall v cls rs,
+  (forall c, cls UL c = true -> upperish cls c || lowerish cls c = true) ->
+  vocab_consistent v -> bpe_complete v -> specials_in_vocab v -> specials_valid v ->
+  scalars rs -> no_nul (of_runes rs) = true -> specials_plain_b v (of_runes rs) = true ->
+  bpe_decode v (bpe_encode v (pretok (tekken cls)) (of_runes rs) false) = Some (of_runes rs).
+Proof.
+  intros v cls rs HL H1 H2 H3 H4 H5 H6 H7.
+  apply bpe_roundtrip_pattern; try assumption; [rewrite tekken_minlen; constructor|apply tekken_matches, HL|apply specials_plain_b_spec, H7].
+Qed.
+Print Assumptions C20_bpe_roundtrip_tekken.
+
+Example C20_bpe_roundtrip_llama3_nonvacuous :
+  let cls := cls_of_table [(97, 129); (98, 129); (32, 4); (49, 2)]%N in
+  specials_valid wv_bpe /\
+  pretok (llama3 cls) [97; 98; 32; 97; 39; 115; 49; 49; 49; 49; 32; 32; 126]%N =
+    [[97; 98]; [32; 97]; [39; 115]; [49; 49; 49]; [49]; [32]; [32; 126]]%N /\
+  bpe_encode wv_bpe (pretok (llama3 cls)) [97; 98; 32; 97]%N false = [256; 188; 253]%Z.
+Proof. split; [exact wv_bpe_specials_valid|]. vm_compute. split; reflexivity. Qed.
 
 (** * round trip, SentencePiece *)
 
